@@ -351,7 +351,8 @@ def omp_runs(text, reps, threads=THREADS, scheds=SCHEDS):
             return
         for th in threads:
             for sc in scheds:
-                env = {"OMP_NUM_THREADS": th, "OMP_SCHEDULE": sc, "OMP_DYNAMIC": "false"}
+                env = {"OMP_NUM_THREADS": th, "OMP_SCHEDULE": sc, "OMP_DYNAMIC": "false",
+                       "OMP_WAIT_POLICY": "passive", "GOMP_SPINCOUNT": "0"}
                 for _ in range(reps):
                     st, out = exe.run(env)
                     yield env, st, (parse_out(out) if st == "ok" else out)
